@@ -18,7 +18,7 @@ TRUSTED = ["hand-written model Model/Fast.v + Model/FastApi.v of LZ4_compress_ge
 ASSUMPTIONS = ["64-bit little-endian target (byPtr table mode and big-endian hashing not modelled)"]
 
 def build(tier):
-    return {"lib": build_lib("default"), "midstate": cc.midstate_lib()}
+    return {"lib": build_lib("default"), "midstate": cc.midstate_lib(), "case_timeout": 1800 if tier == "thorough" else 600}
 
 def gen_cases(tier, seed):
     rng = random.Random(seed)
@@ -29,7 +29,8 @@ def gen_cases(tier, seed):
     if tier == "thorough":
         for a in range(16):
             cases.append({"bseed": a, "mode": "exh", "alpha": "ab", "len": 14, "shard": a, "nshards": 16, "count": 0})
-        cases.append({"bseed": 99, "count": 4, "mode": "mix", "maxn": 3000000})
+        # a few inputs of several hundred KB (the specification decoder extracted from Coq is the judge: keep it affordable)
+        cases.append({"bseed": 99, "count": 4, "mode": "mix", "maxn": 400000})
     return cases
 
 def worker_init(ctx):
